@@ -32,6 +32,17 @@ CLAIMED = {
         ref="DESIGN.md section 6 C04"),
 }
 
+CLAIMED["C02"] = dict(
+    text="TLC checks totality of the parser state machine over every token sequence of a 16-token alphabet (MC_Total) "
+         "and supplies those sequences plus well-formed streams for mutation; the harness runs exhaustive short octet "
+         "strings, the tag x length grid, with-language length pairs, mutations and structural bombs (child processes) "
+         "through both parsers and the value decoder and post-processes the results; TLC validates the outcome trace "
+         "against Trace_Total, which has no step for panic, abort, hang or timeout.",
+    note="TLA+ cannot observe a crash: crash/hang detection is the harness's (catch_unwind, child exit status, 60 s). "
+         "Bounded: token sequences <= 4/5, octet strings <= 3, bombs to 1 MiB / 4 MiB.",
+    technique="TLA+ model checking of the parser state machine (TLC) + outcome-trace validation by TLC",
+    ref="DESIGN.md section 6 C02")
+
 NOT_YET = "check not built yet in this round (planned, see DESIGN.md section 6)"
 
 
@@ -65,7 +76,7 @@ def main():
             "guard": "ancwrd1_ipp_rs_verif",
             "enable": "RUSTFLAGS --cfg ancwrd1_ipp_rs_verif (set in /verif/harness/.cargo/config.toml; the harness "
                       "depends on /repo/ipp by path, so every check rebuilds from /repo's working tree)",
-            "baseline_off_cmd": "cd /repo && cargo test --workspace --lib --bins --no-fail-fast --offline",
+            "baseline_off_cmd": "cd /repo && cargo test --workspace --no-fail-fast --offline",
             "source_commits": hooks_commits,
             "add_only": True,
         },
